@@ -212,6 +212,9 @@ class BlockParser:
 				other_index = other_tokens.find(text[index])
 				if len(other_closes) > 0 and other_closes[-1] == other_tokens[other_index]:
 					other_closes.pop()
+				elif len(other_closes) > 0 and other_closes[-1] in '"\'':
+					# 文字列リテラルの内部にある括弧・引用符はブロックとして扱わない
+					pass
 				elif other_index % 2 == 0:
 					other_closes.append(other_tokens[other_index + 1])
 
@@ -322,7 +325,14 @@ class BlockParser:
 		index = 0
 		begin = 0
 		stack = 0
+		quote = ''
 		while index < len(text):
+			if quote or text[index] in '"\'':
+				# 文字列リテラルの内部にある括弧はブロックとして扱わない
+				quote = '' if text[index] == quote else (quote or text[index])
+				index += 1
+				continue
+
 			if text[index] == brackets[0] and stack == 0:
 				begin = index + 1
 				stack += 1
